@@ -101,7 +101,21 @@ Section C12.
     (forall x y : list N, length x <> length y -> utf8 x <> utf8 y) ->
     sig_path_node sha_hex utf8 fhash a <> sig_task sha_hex utf8 fhash b p.
   Proof. apply sig_path_vs_task; assumption. Qed.
+  (* two path declarations - relative to their task module or absolute, through an explicit
+     node or a plain path, spelled with "." and ".." anywhere - denote the same graph node iff
+     they name the same file after joining and lexical normalisation (F17/F21 were the
+     exceptions: absolute spellings of explicit nodes) *)
+  Theorem C12_collected_same_node_iff : forall d1 p1 d2 p2,
+    sig_path_node sha_hex utf8 fhash (collected_path d1 p1) = sig_path_node sha_hex utf8 fhash (collected_path d2 p2)
+    <-> collected_path d1 p1 = collected_path d2 p2.
+  Proof. intros. apply sig_path_node_iff; assumption. Qed.
 End C12.
+
+Example C12_collected_path_examples :
+  (* "/R/src" + "../bld/x.txt"  and  "/R/sub/../bld/./x.txt"  are both "/R/bld/x.txt" *)
+  collected_path [47; 82; 47; 115; 114; 99]%N [46; 46; 47; 98; 108; 100; 47; 120; 46; 116; 120; 116]%N = [47; 82; 47; 98; 108; 100; 47; 120; 46; 116; 120; 116]%N /\
+  collected_path [47; 82; 47; 115; 114; 99]%N [47; 82; 47; 115; 117; 98; 47; 46; 46; 47; 98; 108; 100; 47; 46; 47; 120; 46; 116; 120; 116]%N = [47; 82; 47; 98; 108; 100; 47; 120; 46; 116; 120; 116]%N.
+Proof. vm_compute. split; reflexivity. Qed.
 
 Theorem C12_normpath_idempotent : forall cs, normpath (normpath cs) = normpath cs.
 Proof. exact normpath_idempotent. Qed.
@@ -124,3 +138,4 @@ Print Assumptions C12_sig_python_node_str_positions.
 Print Assumptions C12_sig_python_node_refuted.
 Print Assumptions C12_sig_path_vs_task.
 Print Assumptions C12_normpath_idempotent.
+Print Assumptions C12_collected_same_node_iff.
